@@ -2,6 +2,7 @@ package main
 
 import (
 	"fmt"
+	"strings"
 	"go/token"
 	"go/types"
 
@@ -11,15 +12,15 @@ import (
 func init() {
 	register("C04", &propDef{
 		Title: "Every symlink left by Unpack resolves inside the destination",
-		Rules: []func(*Checker){ruleC04Guard, ruleC04Accept, rulePredSound("C04.pred"), rulePackerWriters("C04.allowlist"), aliasRule(ruleC01Walk, "C01.walk", "C04.placement", 3)},
+		Rules: []func(*Checker){ruleC04Guard, ruleC04Accept, ruleC04Lexical, rulePredSound("C04.pred"), rulePackerWriters("C04.allowlist"), aliasRule(ruleC01Walk, "C01.walk", "C04.placement", 3)},
 		NotDecided: []string{
-			"physical resolution through other links (a lexically inside target such as l1/l1/../.. with l1 -> . resolves outside; it depends on entries created before or after) — a run-time / filesystem fact no sound static rule here decides",
+			"physical resolution through other links beyond the necessary condition C04.lexical checks (which entries exist when, chains of links) — a run-time / filesystem fact no sound static rule here decides",
 			"whether the validator distinguishes every spelling of absolute targets (string content)",
 		},
 	})
 	register("C05", &propDef{
 		Title: "Pack never leaks outside content and always emits a slug Unpack accepts",
-		Rules: []func(*Checker){ruleC05Link, ruleC05Deref, rulePredSound("C05.pred"), ruleC05Pos, ruleC04Accept2("C05.accept")},
+		Rules: []func(*Checker){ruleC05Link, ruleC05Deref, rulePredSound("C05.pred"), ruleC05Pos, ruleC04Accept2("C05.accept"), rulePackerWriters("C05.allowlist")},
 		NotDecided: []string{
 			"content equality of dereferenced copies",
 			"behaviour of links that are in-tree on disk but whose targets are replaced during the walk",
@@ -148,6 +149,41 @@ func ruleC04Guard(c *Checker) {
 					}
 				}
 			}
+		}
+		// ... and it is told where the link is really created: its position argument is
+		// computed from the path handed to os.Symlink (the constructor's cleaned path), not
+		// from the raw header name, which the constructor may have rewritten (leading slash).
+		if len(s.Call.Common().Args) >= 2 {
+			newname := s.Call.Common().Args[1]
+			var posArg ssa.Value
+			for _, a := range v.Call.Args {
+				if !isStringType(a.Type()) || sameLoc(a, target) {
+					continue
+				}
+				if prm, ok := canon(a).(*ssa.Parameter); ok && prm.Parent() == u.Unpack {
+					continue // dst
+				}
+				posArg = a
+			}
+			samePos := false
+			if posArg != nil {
+				for w := range p.backSlice(posArg, 0) {
+					switch x := w.(type) {
+					case *ssa.Field:
+						if fieldOf(x) == u.PathVar {
+							samePos = true
+						}
+					case *ssa.FieldAddr:
+						if fieldOf(x) == u.PathVar {
+							samePos = true
+						}
+					}
+				}
+				if sameLoc(posArg, newname) {
+					samePos = true
+				}
+			}
+			c.check(samePos, R, fn, "validated position = created position", pos, "the validator's position argument is computed from the path the link is created at", "the validator is told a position that is not computed from the path handed to os.Symlink (e.g. the raw header name): for an entry named /a/l the link is created at dst/a/l but its target is resolved from /a, so a link pointing outside dst is accepted")
 		}
 		c.check(sameTarget, R, fn, "validated target = created target", pos, "the validator is given the very target string that Symlink receives", "the string validated is not the string handed to os.Symlink")
 		c.check(hasDst, R, fn, "validator root = dst", pos, "the validator's root is Unpack's destination parameter", "the validator is not rooted at the destination directory")
@@ -702,4 +738,132 @@ func (p *Prog) helperAcceptsSoundly(h *ssa.Function) (bool, string) {
 		return false, "the helper never accepts"
 	}
 	return true, ""
+}
+
+
+// C04.lexical — the validator decides on the lexically cleaned target while
+// the operating system resolves the raw one.
+func ruleC04Lexical(c *Checker) {
+	const R = "C04.lexical"
+	c.rule(R, "Checked-versus-used: the validator decides containment on filepath.Join/Clean of the target, which collapses 'name/..' textually, while os.Symlink is handed the raw target, which the operating system resolves component by component — if 'name' is (or later becomes) a link, '..' is taken from wherever it points. The two agree only when no '..' follows a named component, so on every accepting path for a relative target the validator (or Unpack, before the link is created) must either refuse such targets — a test that depends on the target and on the \"..\" segment — or decide on the physical resolution (filepath.EvalSymlinks / an Lstat walk of the target's components).", 1)
+	g, u := linkValidator(c, R)
+	if g == nil || u == nil {
+		c.anchorMissing(R, "the (bool, error) validator guarding os.Symlink in Unpack")
+		return
+	}
+	p := c.P
+	var tgt *ssa.Parameter
+	if n := len(g.Params); n > 0 {
+		tgt = g.Params[n-1]
+	}
+	if tgt == nil {
+		c.anchorMissing(R, "the validator's target parameter")
+		return
+	}
+	// is the decision lexical?
+	lexical := false
+	for _, k := range findContainments(g) {
+		for w := range p.backSlice(k.Subject, 0) {
+			if cl, ok := w.(*ssa.Call); ok {
+				o := calleeObj(cl)
+				if isFunc(o, "path/filepath", "Join") || isFunc(o, "path/filepath", "Clean") || isFunc(o, "path", "Join") || isFunc(o, "path", "Clean") {
+					lexical = true
+				}
+			}
+		}
+	}
+	if !lexical {
+		c.pass(R, p.FuncName(g), "decision is not lexical", p.Pos(g.Pos()), "no containment subject is a Join/Clean of the target")
+		return
+	}
+	// (ii) physical resolution
+	physical := false
+	for fn := range p.family(g) {
+		for _, ci := range callsIn(fn) {
+			o := calleeObj(ci)
+			if isFunc(o, "path/filepath", "EvalSymlinks") {
+				physical = true
+			}
+		}
+	}
+	// (i) a dot-dot test on the target, in the validator's family or in Unpack before Symlink
+	mentionsDotDot := func(fn *ssa.Function) bool {
+		found := false
+		eachInstr(fn, func(in ssa.Instruction) {
+			var ops [8]*ssa.Value
+			for _, op := range in.Operands(ops[:0]) {
+				if op != nil && *op != nil {
+					if s, ok := constString(*op); ok && strings.Contains(s, "..") {
+						found = true
+					}
+				}
+			}
+		})
+		return found
+	}
+	dotdotTest := false
+	scan := func(fn *ssa.Function, target ssa.Value) {
+		for _, b := range fn.Blocks {
+			if len(b.Instrs) == 0 {
+				continue
+			}
+			ifi, ok := b.Instrs[len(b.Instrs)-1].(*ssa.If)
+			if !ok {
+				continue
+			}
+			sl := p.backSlice(ifi.Cond, 0)
+			if !sl[target] {
+				dep := false
+				for w := range sl {
+					if sameLoc(w, target) {
+						dep = true
+					}
+				}
+				if !dep {
+					continue
+				}
+			}
+			dd := false
+			for w := range sl {
+				cl, ok := w.(*ssa.Call)
+				if !ok {
+					continue
+				}
+				h := cl.Common().StaticCallee()
+				if h == g || (h != nil && h == u.Ctor) {
+					continue
+				}
+				onTarget, constDD := false, false
+				for _, a := range cl.Call.Args {
+					if s, ok := constString(a); ok && strings.Contains(s, "..") {
+						constDD = true
+					}
+					if a == target || sameLoc(a, target) || p.backSlice(a, 0)[target] {
+						onTarget = true
+					}
+				}
+				if onTarget && (constDD || (h != nil && p.InModule(h) && mentionsDotDot(h))) {
+					dd = true
+				}
+			}
+			if !dd {
+				continue
+			}
+			// one edge must lead to a rejection
+			for i := range b.Succs {
+				if okr, _ := returnsNonNilErrorFrom(b.Succs[i]); okr {
+					dotdotTest = true
+				}
+			}
+		}
+	}
+	for fn := range p.family(g) {
+		if fn == g {
+			scan(fn, tgt)
+		}
+	}
+	for _, ci := range callsTo(u.Unpack, func(o *types.Func) bool { return isFunc(o, "os", "Symlink") }) {
+		scan(u.Unpack, ci.Common().Args[0])
+	}
+	c.check(physical || dotdotTest, R, p.FuncName(g), "dot-dot after a named component", p.Pos(g.Pos()), "targets the lexical decision is wrong for are refused, or the physical resolution is checked", "the validator accepts a relative target on its lexically cleaned form only: with entries a/b/c/l -> ../../.. and m -> a/b/c/l/.. both pass (lexically dst and dst/a/b/c), Unpack returns nil, and following m leads to the parent of dst — there is neither a test refusing '..' after a named component nor a physical resolution")
 }
